@@ -222,6 +222,9 @@ func DrawCore(prop, tier string, ch *Chooser, lean bool, s *Sim) *Core {
 	c := &Core{Cfg: cfg, reqs: map[int64]*Req{}}
 	g := NewGen(ch)
 	c.gen = g
+	if prop == "C14" || prop == "C01" || prop == "C15" {
+		g.GldapEncPct = 40
+	}
 
 	// scheduling knobs (swarm)
 	s.FragMode = ch.Choose(3)
@@ -388,7 +391,7 @@ func DrawCore(prop, tier string, ch *Chooser, lean bool, s *Sim) *Core {
 			if err != nil {
 				panic("sim: cannot encode generated request: " + err.Error())
 			}
-			q := &Req{Rec: rec, Bytes: t.Enc(), Client: i, Pos: j + 1, Negative: neg, Script: &Script{}}
+			q := &Req{Rec: rec, Bytes: encRaw(t), Client: i, Pos: j + 1, Negative: neg, Script: &Script{}}
 			q.BehindUnbind = unbindAt >= 0 && j > unbindAt
 			q.Inline = rec.Op == "unbind" || (rec.Op == "extended" && rec.ExtName == oidStartTLS)
 			c.drawScript(q, p, ch, g)
@@ -400,7 +403,7 @@ func DrawCore(prop, tier string, ch *Chooser, lean bool, s *Sim) *Core {
 			} else if rec.Op == "extended" && rec.ExtName == oidStartTLS {
 				rec.ExtName = "1.3.6.1.4.1.4203.1.11.3" // only the scripted upgrade uses the StartTLS name
 				t, _ = rec.TLV()
-				q.Bytes = t.Enc()
+				q.Bytes = encRaw(t)
 				q.Inline = false
 			}
 			c.reqs[rec.MsgID] = q
